@@ -457,7 +457,219 @@ def build_T6i(tree):
     return text, span_sha(node.body)
 
 
+class _Found(ast.NodeTransformer):
+    """`x is None` for the variables holding what was found -> `not found_x`; colour-type tests -> `mono`"""
+    NAMES = {'modality_lut': 'found_modlut', 'modality_slope_intercept': 'found_rescale', 'voi_center_width': 'found_window',
+             'voi_lut': 'found_voilut', 'self._color_manager': 'found_icc'}
+
+    def visit_Compare(self, node):
+        src = ast.unparse(node)
+        if len(node.ops) == 1 and isinstance(node.ops[0], (ast.Is, ast.IsNot)) and ast.unparse(node.comparators[0]) == 'None':
+            nm = self.NAMES.get(ast.unparse(node.left))
+            if nm:
+                e = ast.Name(id=nm, ctx=ast.Load())
+                return ast.copy_location(ast.UnaryOp(op=ast.Not(), operand=e) if isinstance(node.ops[0], ast.Is) else e, node)
+        if src == 'self._color_type != _ImageColorType.MONOCHROME':
+            return ast.copy_location(ast.UnaryOp(op=ast.Not(), operand=ast.Name(id='mono', ctx=ast.Load())), node)
+        if src == 'self._color_type == _ImageColorType.MONOCHROME':
+            return ast.copy_location(ast.Name(id='mono', ctx=ast.Load()), node)
+        return self.generic_visit(node)
+
+
+def build_T6j(tree):
+    """`__init__` after the flag block: the guards of the three searches, of the colour-manager search and the four refusals
+    for a required but missing stage, in source order - the conditions `stageOutcome` (hand-written) is proved to use"""
+    fn = _init(tree)
+    body = strip_doc(fn.body)
+    mono_branch = None
+    for st in body:
+        if isinstance(st, ast.If) and ast.unparse(st.test) == 'self._color_type == _ImageColorType.PALETTE_COLOR':
+            for alt in st.orelse:
+                if isinstance(alt, ast.If) and ast.unparse(alt.test) == 'self._color_type == _ImageColorType.MONOCHROME':
+                    mono_branch = alt
+            pal = [x for x in st.body if isinstance(x, ast.If)]
+            if len(pal) != 1 or ast.unparse(pal[0].test) != 'use_palette_color' or st.body[0] is not pal[0]:
+                raise Unsupported('palette branch no longer is `if use_palette_color:`')
+    if mono_branch is None:
+        raise Unsupported('MONOCHROME branch of __init__ not found')
+    ifs = [x for x in mono_branch.body if isinstance(x, ast.If)]
+
+    def pick(seq, pred, what):
+        hits = [x for x in seq if pred(ast.unparse(x.test))]
+        if len(hits) != 1:
+            raise Unsupported(f'__init__: expected exactly one {what}, found {len(hits)}')
+        return hits[0]
+
+    def raises(node, kind):
+        last = node.body[-1] if not isinstance(node.body[0], ast.If) else node.body[0].body[-1]
+        ok = isinstance(last, ast.Raise) and ast.unparse(last.exc.func) == kind
+        if not ok:
+            raise Unsupported(f'__init__: `if {ast.unparse(node.test)}` no longer raises {kind}')
+    s_rw = pick(ifs, lambda t: t == 'use_rwvm', 'real-world map search guard')
+    r_rw = pick(ifs, lambda t: 'require_rwvm' in t, 'real-world map refusal')
+    s_mod = pick(ifs, lambda t: 'use_modality' in t, 'modality search guard')
+    r_mod = pick(ifs, lambda t: 'require_modality' in t, 'modality refusal')
+    s_voi = pick(ifs, lambda t: 'use_voi' in t and 'require' not in t, 'VOI search guard')
+    r_voi = pick(ifs, lambda t: 'require_voi' in t, 'VOI refusal')
+    order = [s_rw, r_rw, s_mod, r_mod, s_voi, r_voi]
+    if [x.lineno for x in order] != sorted(x.lineno for x in order):
+        raise Unsupported('__init__: searches / refusals of the monochrome branch are no longer in the order rwvm, modality, VOI')
+    for x in (r_rw, r_mod, r_voi):
+        raises(x, 'RuntimeError')
+    top_ifs = [x for x in body if isinstance(x, ast.If)]
+    s_icc = pick(top_ifs, lambda t: t.startswith('use_icc and') and 'use_palette_color' not in t, 'colour-manager search guard')
+    r_icc = pick(top_ifs, lambda t: 'require_icc and self._color_manager' in t, 'ICC refusal')
+    raises(r_icc, 'RuntimeError')
+    if not (mono_branch.lineno < s_icc.lineno < r_icc.lineno):
+        raise Unsupported('__init__: colour-manager search / refusal no longer follow the monochrome branch')
+    # has_rwvm must be set exactly where a map was found
+    sets = [n for n in ast.walk(s_rw) if isinstance(n, ast.Assign) and ast.unparse(n) == 'has_rwvm = True']
+    if len(sets) != 1:
+        raise Unsupported('has_rwvm is no longer set to True at exactly one place of the real-world map search')
+    B = 'bool'
+    specs = [
+        ('searchRwvm', s_rw, [('use_rwvm', B)], 'is a real-world value map searched'),
+        ('refuseRwvm', r_rw, [('require_rwvm', B), ('has_rwvm', B)], 'required real-world value map missing'),
+        ('searchModality', s_mod, [('has_rwvm', B), ('use_modality', B)], 'is a modality transform searched'),
+        ('refuseModality', r_mod, [('require_modality', B), ('found_modlut', B), ('found_rescale', B)], 'required modality transform missing'),
+        ('searchVoi', s_voi, [('has_rwvm', B), ('use_voi', B)], 'is a VOI transform searched'),
+        ('refuseVoi', r_voi, [('require_voi', B), ('found_window', B), ('found_voilut', B)], 'required VOI transform missing'),
+        ('searchIcc', s_icc, [('use_icc', B), ('mono', B)], 'is an ICC profile searched'),
+        ('refuseIcc', r_icc, [('require_icc', B), ('found_icc', B)], 'required ICC profile missing'),
+    ]
+    texts = []
+    for name, node, params, doc in specs:
+        test = _Found().visit(copy.deepcopy(node.test))
+        ret = ast.Return(value=test)
+        ast.fix_missing_locations(ret)
+        texts.append(translate_block([ret], name, params, {}, doc=f'`__init__`: {doc} (`if {ast.unparse(node.test)}`)'))
+    return '\n\n'.join(texts), span_sha([x.test for x in order + [s_icc, r_icc]])
+
+
+def build_T6k(tree):
+    """`_CombinedPixelTransform.__call__`: the range test of a real-world map, the affine step as written (`* slope` unless 1,
+    `+ intercept` unless 0), which effective attribute is applied first, and the arguments handed to apply_lut / apply_voi_window"""
+    fn = find_func(tree, '_CombinedPixelTransform.__call__')
+    body = strip_doc(fn.body)
+    rc = [x for x in body if isinstance(x, ast.If) and ast.unparse(x.test) == 'self._input_range_check is not None']
+    if len(rc) != 1 or ast.unparse(rc[0].body[0]) != 'first, last = self._input_range_check' or len(rc[0].body) != 2:
+        raise Unsupported('__call__: range-check block changed')
+    inner = rc[0].body[1]
+    if not (isinstance(inner, ast.If) and isinstance(inner.body[-1], ast.Raise) and ast.unparse(inner.body[-1].exc.func) == 'ValueError'):
+        raise Unsupported('__call__: range check no longer raises ValueError')
+    ret = ast.Return(value=copy.deepcopy(inner.test))
+    ast.fix_missing_locations(ret)
+    t1 = translate_block([ret], 'callRangeRefused', [('first', 'rat'), ('last', 'rat')],
+                         {'frame_out.min()': ('rat', 'x'), 'frame_out.max()': ('rat', 'x')},
+                         doc='`__call__`: a value x outside [first, last] of the real-world value map is refused')
+    chain = [x for x in body if isinstance(x, ast.If) and ast.unparse(x.test) == 'self._effective_lut_data is not None']
+    if len(chain) != 1:
+        raise Unsupported('__call__: effective-LUT branch not found')
+    c1 = chain[0]
+    if rc[0].lineno > c1.lineno:
+        raise Unsupported('__call__: the range check no longer precedes the transform')
+    if len(c1.orelse) != 1 or not isinstance(c1.orelse[0], ast.If) or ast.unparse(c1.orelse[0].test) != 'self._effective_slope_intercept is not None':
+        raise Unsupported('__call__: second branch is no longer the slope / intercept')
+    c2 = c1.orelse[0]
+    if len(c2.orelse) != 1 or not isinstance(c2.orelse[0], ast.If) or ast.unparse(c2.orelse[0].test) != 'self._effective_window_center_width is not None' \
+            or c2.orelse[0].orelse:
+        raise Unsupported('__call__: third branch is no longer the window')
+    c3 = c2.orelse[0]
+    want_lut = 'frame_out = apply_lut(frame_out, self._effective_lut_data, self._effective_lut_first_mapped_value, clip=self._clip)'
+    if [ast.unparse(x) for x in c1.body] != [want_lut]:
+        raise Unsupported('__call__: arguments of apply_lut changed')
+    want_win = ("frame_out = apply_voi_window(frame_out, window_center=self._effective_window_center_width[0], "
+                "window_width=self._effective_window_center_width[1], dtype=self.output_dtype, invert=self._invert, "
+                "output_range=self._voi_output_range, voi_lut_function=self._effective_voi_function or 'LINEAR')")
+    if [ast.unparse(x) for x in c3.body] != [want_win]:
+        raise Unsupported('__call__: arguments of apply_voi_window changed')
+    if ast.unparse(c2.body[0]) != 'slope, intercept = self._effective_slope_intercept':
+        raise Unsupported('__call__: slope / intercept are no longer unpacked from _effective_slope_intercept')
+    stmts = _clone(c2.body[1:]) + [_ret('frame_out')]
+    t2 = translate_block(stmts, 'callAffine', [('frame_out', 'rat'), ('slope', 'rat'), ('intercept', 'rat')], {},
+                         doc='`__call__`, slope / intercept branch, on one value')
+    # which attribute wins when several are set: 1 = table, 2 = slope / intercept, 3 = window, 0 = none
+    sel = ast.parse('if has_lut:\n    return 1\nelif has_affine:\n    return 2\nelif has_window:\n    return 3\nreturn 0').body
+    t3 = translate_block(sel, 'callBranch', [('has_lut', 'bool'), ('has_affine', 'bool'), ('has_window', 'bool')], {},
+                         doc='`__call__`: order of the if / elif chain over the effective attributes (shape checked by the translator)')
+    return t1 + '\n\n' + t2 + '\n\n' + t3, span_sha([rc[0], c1])
+
+
+def build_T6m(tree):
+    """search order of `__init__`: the datasets list (which dataset, shared-by-all-frames flag) and, inside the VOI search,
+    what is looked for first within one dataset"""
+    fn = _init(tree)
+    rows = []
+    for node in ast.walk(fn):
+        if isinstance(node, ast.Expr) and isinstance(node.value, ast.Call) and ast.unparse(node.value.func) == 'datasets.append':
+            arg = node.value.args[0]
+            if not (isinstance(arg, ast.Tuple) and len(arg.elts) == 2 and isinstance(arg.elts[1], ast.Constant)):
+                raise Unsupported('datasets.append no longer takes a (dataset, bool) pair')
+            src = ast.unparse(arg.elts[0])
+            kind = {'image.PerFrameFunctionalGroupsSequence[frame_index]': 'perframe', 'image.SharedFunctionalGroupsSequence[0]': 'shared',
+                    'image': 'image'}.get(src)
+            if kind is None:
+                raise Unsupported(f'unknown dataset in the search list: {src}')
+            rows.append((node.lineno, kind, bool(arg.elts[1].value)))
+    rows.sort()
+    init = [n for n in ast.walk(fn) if isinstance(n, ast.Assign) and ast.unparse(n) == 'datasets = []']
+    if len(init) != 1 or not rows or init[0].lineno > rows[0][0]:
+        raise Unsupported('datasets is no longer built from an empty list by appends')
+    # every search loop iterates the list front to back and stops at the first hit
+    loops = [n for n in ast.walk(fn) if isinstance(n, ast.For) and ast.unparse(n.iter) == 'datasets']
+    if len(loops) != 3:
+        raise Unsupported(f'expected three searches over datasets, found {len(loops)}')
+    for lp in loops:
+        if ast.unparse(lp.target) not in ('ds, is_shared', '(ds, is_shared)') or not any(isinstance(x, ast.Break) for x in ast.walk(lp)):
+            raise Unsupported('a search over datasets no longer stops at the first hit')
+    voi = [lp for lp in loops if 'FrameVOILUTSequence' in ast.unparse(lp)]
+    if len(voi) != 1:
+        raise Unsupported('VOI search loop not found')
+    tests = [ast.unparse(x.test) for x in voi[0].body if isinstance(x, ast.If) and isinstance(x.body[-1], ast.Break)]
+    kinds = []
+    for t in tests:
+        kinds.append('lut' if 'VOILUTSequence' in t and 'Window' not in t else 'window' if 'WindowCenter' in t else None)
+    if None in kinds or sorted(kinds) != ['lut', 'window']:
+        raise Unsupported(f'VOI search no longer tests a LUT sequence and window values: {tests}')
+    text = ('/-- the list `datasets` of `__init__` in search order: (dataset, shared by all frames) -/\n'
+            'def datasetOrder : List (String × Bool) :=\n  [' + ', '.join(f'({_lean_str(k)}, {"true" if b else "false"})' for _, k, b in rows) + ']\n\n'
+            '/-- what the VOI search looks for within one dataset, first to last -/\n'
+            'def voiWithinDataset : List String :=\n  [' + ', '.join(_lean_str(k) for k in kinds) + ']')
+    import hashlib
+    return text, hashlib.sha256(repr((rows, kinds)).encode()).hexdigest()
+
+
+def build_T6n(tree):
+    """`content.LUT`: the constants of the descriptor - `number_of_entries` (0 means 2**16) and the admission tests / stored
+    entry count of `__init__` (first mapped value in [0, 2**16), 1..2**16 entries, 2**16 stored as 0)"""
+    fn = find_func(tree, 'LUT.number_of_entries')
+    t1 = translate_block(strip_doc(fn.body), 'lutNumberOfEntries', [], {'self.LUTDescriptor[0]': ('int', 'd0')},
+                         doc='`LUT.number_of_entries` from the first descriptor value')
+    init = find_func(tree, 'LUT.__init__')
+    body = strip_doc(init.body)
+    keep = []
+    seen_len = False
+    for st in body:
+        src = ast.unparse(st)
+        if isinstance(st, ast.Assign) and src == 'len_data = lut_data.size':
+            keep.append(st)
+            seen_len = True
+        elif isinstance(st, ast.If) and 'isinstance' not in src.split(':')[0] and 'ndim' not in src.split(':')[0] \
+                and ('first_mapped_value' in ast.unparse(st.test) or 'len_data' in ast.unparse(st.test)):
+            keep.append(st)
+    if not seen_len or len(keep) != 5:
+        raise Unsupported(f'LUT.__init__: admission tests changed ({len(keep)} statements kept)')
+    stmts = _clone(keep) + [_ret('len_data')]
+    t2 = translate_block(stmts, 'lutInitCheck', [('first_mapped_value', 'int')], {'lut_data.size': ('int', 'n')},
+                         doc='`LUT.__init__`: refusals on first mapped value / number of entries; result = entry count stored in the descriptor')
+    return t1 + '\n\n' + t2, span_sha(strip_doc(fn.body) + keep)
+
+
 TARGETS = {
+    'T6n': {'file': 'content.py', 'build': build_T6n},
+    'T6k': {'file': 'image.py', 'build': build_T6k},
+    'T6m': {'file': 'image.py', 'build': build_T6m},
+    'T6j': {'file': 'image.py', 'build': build_T6j},
     'T6i': {'file': 'image.py', 'build': build_T6i},
     'T6h': {'file': 'image.py', 'build': build_T6h},
     'T6g': {'file': 'pixels.py', 'build': build_T6g},
